@@ -24,4 +24,4 @@ require (
 	golang.org/x/sys v0.35.0 // indirect
 )
 
-replace github.com/dgraph-io/badger/v4 => /repo
+replace github.com/dgraph-io/badger/v4 => /tmp/ds-mut
